@@ -634,6 +634,11 @@ def check_reverse_total(prog: Program, res: Result) -> None:
 
 def run(prog: Program, res: Result, tier: str) -> None:
     check_reverse_total(prog, res)
+    from .common import check_setter_once
+    K_ = prog.classes["StereoCondensedReactionGraph"]
+    check_setter_once(prog, res, [K_.methods.get(m) for m in (
+        "from_graphs", "reverse_reaction", "reactant", "product", "_ts")],
+        "reaction graph construction / reversal")
     res.trusted += ["sa/pe.py constant folding; descriptors modelled as "
                     "tokens that compare by identity of the arrangement",
                     "setter semantics: set_*_stereo_change replaces the entry"]
